@@ -37,6 +37,9 @@ type ReqSpec struct {
 	Root    int    `json:"root"`     // index into the DAG's block order counted from the root (0 = DAG root)
 	ReqHook string `json:"req_hook"` // validate novalidate error pause yield (validates, then lets other goroutines run)
 	PauseAt int    `json:"pause_at"` // outgoing block hook pauses at this block index (0 = never)
+	// YieldAtPause: the hook lets other goroutines run before it pauses (slow user code): whatever is
+	// signalled to the traversal meanwhile arrives after its last look at its signals
+	YieldAtPause bool `json:"yield_at_pause,omitempty"`
 	ErrAt   int    `json:"err_at"`   // outgoing block hook errors at this block index
 	ExtAt   int    `json:"ext_at"`   // outgoing block hook sends extension data at this index
 	Exts    string `json:"exts"`     // request extensions: "", dncids, dedup, skip, dncids+dedup
@@ -84,6 +87,7 @@ func Gen(t *rapid.T, maxBlocks int) Case {
 		}
 		if rapid.IntRange(0, 2).Draw(t, "haspause") == 0 {
 			r.PauseAt = rapid.IntRange(1, 4).Draw(t, "pauseat")
+			r.YieldAtPause = rapid.IntRange(0, 3).Draw(t, "yieldatpause") == 0
 		}
 		if rapid.IntRange(0, 5).Draw(t, "haserr") == 0 {
 			r.ErrAt = rapid.IntRange(1, 4).Draw(t, "errat")
@@ -134,6 +138,7 @@ func Gen(t *rapid.T, maxBlocks int) Case {
 		// an early message of response 0 fails to send while its traversal runs on to the block at which it
 		// pauses itself; the paused response is cancelled by the responder at the end
 		c.Reqs[0].ReqHook, c.Reqs[0].PauseAt, c.Reqs[0].ErrAt = "validate", rapid.IntRange(2, 3).Draw(t, "fp"), 0
+		c.Reqs[0].YieldAtPause = true
 		c.FailAt, c.ConnFail, c.StallAt, c.Retries = []int{rapid.IntRange(0, 1).Draw(t, "ff")}, nil, nil, 1
 		c.EndCancel = true
 		c.Ops = append([]Op{{K: "new", R: 0}}, c.Ops...)
@@ -333,6 +338,11 @@ func Run(t *testing.T, c Case) *Result {
 				ha.TerminateWithError(errors.New("block hook says no"))
 			}
 			if int(bd.Index()) == c.Reqs[i].PauseAt {
+				if c.Reqs[i].YieldAtPause {
+					for k := 0; k < 200; k++ {
+						runtime.Gosched()
+					}
+				}
 				ha.PauseResponse()
 			}
 		})
